@@ -72,7 +72,7 @@ pub fn run() -> i32 {
     let mut ctx = Ctx::new("C01", "exploration");
     let seed = ctx.seed;
     let lens = lens(ctx.tier);
-    ctx.rule = format!("full product: every encrypt form ({} forms: classic combined/detached/in-place, precomputed, sealed, object API with stack and Vec containers) x key/nonce alphabet (5x5 for secret-key forms, 4 pairs for public-key forms) x every message length ({} lengths) x 4 content classes, bytes compared with libsodium; every open form ({} forms) on the libsodium-made ciphertext of every cell must return the message; libsodium must open dryoc's output; sealed boxes additionally with the real RNG, cross-opened both ways; all 13 824 sequences of 3 public-key operations over 6 operations x 2 local keys x 2 peers, each on a fresh thread, every result checked against libsodium; heap container forms (nightly build) on the reduced grid lengths 0..=130 + {{1023..1025, 4095..4097}} x 1 key set x 2 contents, locked container forms (several mlock calls each) on lengths {{0,1,15,16,17,63,64,65,128,1024,4097}}; non-trivial = cell executed in both implementations (all)", enc_all().len(), lens.len(), open_all().len());
+    ctx.rule = format!("full product: every encrypt form ({} forms: classic combined/detached/in-place, precomputed, sealed, object API with stack and Vec containers) x key/nonce alphabet (5x5 for secret-key forms, 4 pairs for public-key forms) x every message length ({} lengths) x 4 content classes, bytes compared with libsodium; every open form ({} forms) on the libsodium-made ciphertext of every cell must return the message; libsodium must open dryoc's output; four constructed secret-key inputs whose genuine tag is 0^16, ff^16, 1 and 2^127 through every secret-box and precomputed-key form; sealed boxes additionally with the real RNG, cross-opened both ways; all 13 824 sequences of 3 public-key operations over 6 operations x 2 local keys x 2 peers, each on a fresh thread, every result checked against libsodium; heap container forms (nightly build) on the reduced grid lengths 0..=130 + {{1023..1025, 4095..4097}} x 1 key set x 2 contents, locked container forms (several mlock calls each) on lengths {{0,1,15,16,17,63,64,65,128,1024,4097}}; non-trivial = cell executed in both implementations (all)", enc_all().len(), lens.len(), open_all().len());
     ctx.assume("libsodium 1.0.18 is the reference; key/nonce/message VALUES outside the stated alphabets are not covered, lengths and forms are covered completely up to the bound");
     ctx.assume("sealed-box ephemeral key is pinned through RNG seam H3 for the exact-bytes comparison");
 
@@ -214,6 +214,54 @@ pub fn run() -> i32 {
         }
     });
     ctx.absorb("cross-open", st);
+    // authentication tags with special values (all-zero, all-ones, one, 2^127): secret-key inputs
+    // solved offline (pure-Python XSalsa20/Poly1305, tools/special_tag_vectors.py) so that the
+    // genuine tag is that value; libsodium confirms the tag at run time. Every secret-box form and
+    // every precomputed-key box form must produce exactly these bytes and open them.
+    {
+        let vectors: [(&str, &str, &str, [u8; 16]); 4] = [
+            ("zero", "0e0f101112131415161718191a1b1c1d1e1f202122232425", "4b114e2022a8c1c2aa0ff5c512e4e3e9", [0u8; 16]),
+            ("ones", "0708090a0b0c0d0e0f101112131415161718191a1b1c1d1e", "e86abba30cabe6d40365674f9d5cf097", [0xffu8; 16]),
+            ("one", "0e0f101112131415161718191a1b1c1d1e1f202122232425", "a115698e7d8667552b239fb47c1eaabf", { let mut t = [0u8; 16]; t[0] = 1; t }),
+            ("top", "0708090a0b0c0d0e0f101112131415161718191a1b1c1d1e", "2492c4ab363e807b63c192c9eb229b36", { let mut t = [0u8; 16]; t[15] = 0x80; t }),
+        ];
+        let mut st = Stats::new();
+        for (name, nhex, mhex, tag) in vectors {
+            let mut ks = Keys::make(seed, 3, 1);
+            ks.k = std::array::from_fn(|i| i as u8 + 1);
+            ks.pre = ks.k;
+            ks.n = unhx(&json!(nhex)).try_into().unwrap();
+            let m = unhx(&json!(mhex));
+            let wire = sodium::secretbox_easy(&m, &ks.n, &ks.k);
+            if wire[..16] != tag {
+                println!("MACHINERY-ERROR property=C01 special-tag vector '{}' does not produce the intended tag under libsodium", name);
+                return 2;
+            }
+            for e in enc_all().iter().filter(|e| e.1 == Fam::Sb || (uses_pre(e.0) && !e.0.contains("beforenm"))) {
+                if weight(e.0) == 2 && name != "zero" {
+                    continue;
+                }
+                let out = guarded(std::panic::AssertUnwindSafe(|| (e.2)(&ks, &m)));
+                let ok = out.as_ref().map(|o| o == &wire).unwrap_or(false);
+                st.eval(&("special-tag-enc", name, e.0), true, if ok { "bytes==libsodium" } else { "bytes-differ" });
+                if !ok {
+                    st.fail(Fail { check: "C01.product".into(), signature: format!("C01/{}/{}/special-tag", fam_name(e.1), e.0), what: format!("{} on the input whose genuine tag is {}: output differs from libsodium: {:?}", e.0, hx(&tag), out.map(|o| short(&o))), case: json!({"kind": "enc", "form": e.0, "keys": ks.json(), "msg": hx(&m)}) });
+                }
+            }
+            for o in open_all().iter().filter(|o| o.1 == Fam::Sb || (uses_pre(o.0) && !o.0.contains("beforenm"))) {
+                if weight(o.0) == 2 && name != "zero" {
+                    continue;
+                }
+                let out = (o.2)(&ks, &wire, SENTINEL);
+                let ok = matches!(&out.v, Verdict::Ok(g) if g.len() >= m.len() && g[..m.len()] == m[..]);
+                st.eval(&("special-tag-open", name, o.0), true, if ok { "opened==message" } else { "open-failed" });
+                if !ok {
+                    st.fail(Fail { check: "C01.product".into(), signature: format!("C01/{}/{}/special-tag/rejected-genuine", fam_name(o.1), o.0), what: format!("{} on the genuine box whose tag is {}: {:?}", o.0, hx(&tag), out.v), case: json!({"kind": "open", "form": o.0, "keys": ks.json(), "msg": hx(&m)}) });
+                }
+            }
+        }
+        ctx.absorb("special-tags", st);
+    }
     // key sequences: every sequence of 3 public-key operations over 2 local key pairs x 2 peers x
     // 6 operations, executed on one thread, each result checked against libsodium — exposes state
     // carried from one call to the next (a cached shared key, a reused scratch buffer)
